@@ -7,6 +7,7 @@ import (
 	"github.com/hydraide/hydraide/app/core/hydra/swamp"
 	"github.com/hydraide/hydraide/app/core/hydra/swamp/treasure"
 	"github.com/hydraide/hydraide/app/core/hydra/swamp/treasure/msgpackpatch"
+	"github.com/hydraide/hydraide/app/verifhook"
 	hydrapb "github.com/hydraide/hydraide/sdk/go/hydraidego/v3/hydraidepbgo"
 	"google.golang.org/grpc/codes"
 	"google.golang.org/grpc/status"
@@ -99,6 +100,9 @@ func patchTreasuresOneSwamp(ctx context.Context, g Gateway, in *hydrapb.PatchTre
 		// Hold capMu for the whole batch so concurrent Cap-bearing flows
 		// observe consistent budget arithmetic.
 		defer lockHolder()
+		if verifhook.Enabled {
+			verifhook.Trace("cap.batch", "s", swampObj, "matching", currentMatching, "max", bodyCapMax)
+		}
 		budgetLeft = bodyCapMax - currentMatching
 		if budgetLeft < 0 {
 			budgetLeft = 0
@@ -184,6 +188,9 @@ func capPreCount(swampObj swamp.Swamp, predicate func(treasureForCount) bool) (i
 		return predicate(t)
 	}
 	count := swampObj.CountMatchingTreasures(adapted)
+	if verifhook.Enabled {
+		verifhook.Yield("cap.precount.done", swampObj, count)
+	}
 	// Cap-bearing patch flows serialise on swamp.capMu — but the swamp
 	// interface does not expose it directly. Acquire it via the
 	// public LockCapMu / UnlockCapMu accessors added on the swamp
